@@ -18,7 +18,8 @@ type glueTxn struct {
 // with reloads / reverts between request and response and between attempts.
 func glueCase(r *prng.R, id string) proto.Case {
 	labels := r.Range(2, 5)
-	cur := r.Intn(labels)
+	// label = 10*a + k: k selects the remedies (retry status 500+k), a ONLY the accounts section (token value)
+	cur := r.Intn(labels) + 10*r.Intn(2)
 	ops := []string{fmt.Sprintf("gcfg d0=%d", cur)}
 	malformed := r.Chance(5)
 	var open []*glueTxn // requests seen, response pending
@@ -28,9 +29,9 @@ func glueCase(r *prng.R, id string) proto.Case {
 	status := func(t *glueTxn) int {
 		switch k := r.Intn(100); {
 		case k < 65:
-			return 500 + t.label // fires iff the response is processed with the transaction's own version
+			return 500 + t.label%10 // fires iff the response is processed with the transaction's own version
 		case k < 85:
-			return 500 + cur // fires iff it is processed with the current version
+			return 500 + cur%10 // fires iff it is processed with the current version
 		case k < 93:
 			return 500 + r.Intn(labels)
 		default:
@@ -72,7 +73,17 @@ func glueCase(r *prng.R, id string) proto.Case {
 			if r.Chance(10) {
 				okv = 0
 			}
-			d := r.Intn(labels)
+			var d int
+			switch q := r.Intn(100); {
+			case q < 35: // only the accounts section changes (an operator rotating a key)
+				d = cur%10 + 10*((cur/10+1+r.Intn(3))%4)
+			case q < 70: // only the remedies change
+				d = cur/10*10 + r.Intn(labels)
+			case q < 80: // the same file again
+				d = cur
+			default:
+				d = r.Intn(labels) + 10*r.Intn(4)
+			}
 			ops = append(ops, fmt.Sprintf("reload d=%d ok=%d", d, okv))
 			if okv == 1 {
 				cur = d
@@ -89,10 +100,11 @@ func glueCase(r *prng.R, id string) proto.Case {
 }
 
 // glueEnum: every sequence of length `depth` over a small alphabet around ONE retried sequence:
-// first attempt (id 1 = seq 1), retried attempt (id 2, seq 1), reloads to label 1 / back to 0.
+// first attempt (id 1 = seq 1), retried attempt (id 2, seq 1), reloads to label 1 / back to 0 / to 10
+// (label 10 differs from 0 in the accounts section only).
 func glueEnum(depth int, emit func(proto.Case)) {
 	alpha := []string{"req id=1 seq=1", "resp id=1 seq=1 status=500", "resp id=1 seq=1 status=501",
-		"req id=2 seq=1", "resp id=2 seq=1 status=500", "resp id=2 seq=1 status=501", "reload d=1 ok=1", "reload d=0 ok=1"}
+		"req id=2 seq=1", "resp id=2 seq=1 status=500", "resp id=2 seq=1 status=501", "reload d=1 ok=1", "reload d=0 ok=1", "reload d=10 ok=1"}
 	id := 0
 	var rec func(prefix []string)
 	rec = func(prefix []string) {
